@@ -886,6 +886,9 @@ func genCase(r *hx.Rng, id string, prop string) *kase {
 		g.npod[n] = hx.Pick(r, "p1", "p1", "p2")
 	}
 	k := &kase{ID: id, Kind: "seq"}
+	if prop == "C13" {
+		k.Kind = "deploy"
+	}
 	n := r.Range(8, 60)
 	if g.c13 {
 		c13deps, c13fresh, c13pendingRead = nil, 0, nil
